@@ -563,13 +563,17 @@ def _run_series(case, ctx):
     elif which == 1:
         from statsmodels.tsa.stattools import acf
         lags = 1 + case["p"] % 5
-        ok, out = ctx.call("series:acf-exception", AutoCorrelationTransformer(n_lags=lags).fit_transform, zs)
+        adjusted, fft = bool((case["p"] // 6) % 2), bool((case["p"] // 12) % 2)        # the options of the estimate: adjusted denominators (n - k), FFT evaluation
+        ok, out = ctx.call("series:acf-exception", AutoCorrelationTransformer(n_lags=lags, adjusted=adjusted, fft=fft).fit_transform, zs)
         if ok:
-            ctx.check("series-closed-form", _eq(np.asarray(out), acf(v, nlags=lags, fft=False), 1e-12), "series:acf", "ACF transformer differs from the autocorrelation coefficients")
-            # independent definition
+            ctx.check("series-closed-form", _eq(np.asarray(out), acf(v, nlags=lags, fft=False, adjusted=adjusted), 1e-10), "series:acf", "ACF transformer differs from the autocorrelation coefficients",
+                      adjusted=adjusted, fft=fft)
+            # independent definition: sum of lagged products over n (or over n - k when adjusted), relative to lag 0
             m = v.mean()
-            ref = [float(np.sum((v[: n - k] - m) * (v[k:] - m)) / np.sum((v - m) ** 2)) for k in range(lags + 1)]
-            ctx.check("series-closed-form", _eq(np.asarray(out), ref, 1e-9), "series:acf-definition", "ACF differs from sum((z_t - m)(z_{t+k} - m)) / sum((z_t - m)^2)")
+            cov = [float(np.sum((v[: n - k] - m) * (v[k:] - m)) / ((n - k) if adjusted else n)) for k in range(lags + 1)]
+            ref = [c / cov[0] for c in cov]
+            ctx.check("series-closed-form", _eq(np.asarray(out), ref, 1e-9), "series:acf-definition", "ACF differs from its definition (lagged products over n, or over n - k when adjusted)",
+                      adjusted=adjusted, fft=fft, got=np.asarray(out)[:4].tolist(), expected=ref[:4])
     elif which == 2:
         from statsmodels.tsa.stattools import pacf
         lags = 1 + case["p"] % 4
